@@ -973,16 +973,18 @@ impl Transaction {
             return false;
         }
 
-        if self
-            .from
-            .iter()
-            .map(|slip| slip.utxoset_key)
-            .collect::<Vec<_>>()
-            .len()
-            != self.from.len()
         {
-            error!("ERROR: transaction : {} has duplicate inputs", self);
-            return false;
+            // no value-carrying input may be referenced twice
+            let mut unique_inputs: AHashSet<SaitoUTXOSetKey> = Default::default();
+            for slip in self.from.iter() {
+                if slip.amount == 0 || slip.slip_type == SlipType::Bound {
+                    continue;
+                }
+                if !unique_inputs.insert(slip.utxoset_key) {
+                    error!("ERROR: transaction : {} has duplicate inputs", self);
+                    return false;
+                }
+            }
         }
 
         // Fee Transactions are validated in the block class. There can only
